@@ -137,6 +137,13 @@ Definition obj_r1x (o : oracles) (nb : N) (props : list (string * property)) (r0
 Section WithTables.
 Variable words : list (string * bool).
 Variable pu : units -> string -> option fl.
+(* cont = false: the uses of THIS evaluation order, stopping at the first error like Ops.v.
+   cont = true : the iteration over the entries of a Go map (a map value, the properties of an object)
+   goes on after an entry failed — the UNION of the uses over all iteration orders the Go runtime may
+   pick; for an operation that succeeds the two coincide as sets.  (Used by the sequential footprint
+   correspondence as the upper bound for operations that fail.) *)
+Variable cont : bool.
+Definition go_on {A} (o : outcome A) : bool := cont || is_ok o.
 Notation p_unser := (unser words pu).
 Notation p_validate := (validate words pu).
 Notation p_serialize := (serialize words pu).
@@ -161,7 +168,7 @@ Fixpoint xprims_unser (fuel : nat) (nb : N) (ne : nenv) (e : env) (s : schema) (
         match v with
         | VSlice _ _ l =>
             if size_ok mn mx (zlen l)
-            then seqp (fun x => (xprims_unser f (nb + 1)%N ne e it x, is_ok (p_unser f e it x))) l
+            then seqp (fun x => (xprims_unser f (nb + 1)%N ne e it x, go_on (p_unser f e it x))) l
             else []
         | _ => []
         end
@@ -171,9 +178,9 @@ Fixpoint xprims_unser (fuel : nat) (nb : N) (ne : nenv) (e : env) (s : schema) (
             if size_ok mn mx (zlen kvs)
             then seqp (fun kv =>
                          let pk := xprims_unser f (nb + 1)%N ne e ks (fst kv) in
-                         if is_ok (p_unser f e ks (fst kv))
+                         if go_on (p_unser f e ks (fst kv))
                          then ((pk ++ xprims_unser f (nb + 1 + ssize ks)%N ne e vs (snd kv))%list,
-                               is_ok (p_unser f e vs (snd kv)))
+                               go_on (p_unser f e vs (snd kv)))
                          else (pk, false)) kvs
             else []
         | _ => []
@@ -192,8 +199,11 @@ Fixpoint xprims_unser (fuel : nat) (nb : N) (ne : nenv) (e : env) (s : schema) (
                                | Ok a =>
                                    match alookup (fst np) a with
                                    | Some d =>
-                                       if p_disabled (snd np) then (Err (cerr EDisabled), b', ps)
-                                       else (x <- p_unser f e (p_type (snd np)) d ;; Ok (raw_set (fst np) x a), b',
+                                       if p_disabled (snd np) then ((if cont then acc else Err (cerr EDisabled)), b', ps)
+                                       else (match p_unser f e (p_type (snd np)) d with
+                                             | Ok x => Ok (raw_set (fst np) x a)
+                                             | r => if cont then acc else (x <- r ;; Ok a)
+                                             end, b',
                                              (ps ++ xprims_unser f b ne e (p_type (snd np)) d)%list)
                                    | None => (acc, b', ps)
                                    end
@@ -253,7 +263,7 @@ with xprims_validate (fuel : nat) (nb : N) (ne : nenv) (e : env) (s : schema) (v
         match v with
         | VSlice _ _ l =>
             if size_ok mn mx (zlen l)
-            then seqp (fun x => (xprims_validate f (nb + 1)%N ne e it x, is_ok (p_validate f e it x))) l
+            then seqp (fun x => (xprims_validate f (nb + 1)%N ne e it x, go_on (p_validate f e it x))) l
             else []
         | _ => []
         end
@@ -263,9 +273,9 @@ with xprims_validate (fuel : nat) (nb : N) (ne : nenv) (e : env) (s : schema) (v
             if size_ok mn mx (zlen kvs)
             then seqp (fun kv =>
                          let pk := xprims_validate f (nb + 1)%N ne e ks (fst kv) in
-                         if is_ok (p_validate f e ks (fst kv))
+                         if go_on (p_validate f e ks (fst kv))
                          then ((pk ++ xprims_validate f (nb + 1 + ssize ks)%N ne e vs (snd kv))%list,
-                               is_ok (p_validate f e vs (snd kv)))
+                               go_on (p_validate f e vs (snd kv)))
                          else (pk, false)) kvs
             else []
         | _ => []
@@ -277,8 +287,8 @@ with xprims_validate (fuel : nat) (nb : N) (ne : nenv) (e : env) (s : schema) (v
             if is_ok (check_rules props (fun k => amem k r))
             then seqp (fun kv => match alookup (fst kv) props with
                                  | Some p => (xprims_validate f (prop_off (nb + 1)%N props (fst kv)) ne e (p_type p) (snd kv),
-                                              is_ok (p_validate f e (p_type p) (snd kv)))
-                                 | None => ([], false)
+                                              go_on (p_validate f e (p_type p) (snd kv)))
+                                 | None => ([], cont)
                                  end) r
             else []
         | None => []
@@ -348,7 +358,7 @@ with xprims_serialize (fuel : nat) (nb : N) (ne : nenv) (e : env) (s : schema) (
         if is_ok (p_validate f e s v) then
           match v with
           | VSlice _ _ l =>
-              (pv ++ seqp (fun x => (xprims_serialize f (nb + 1)%N ne e it x, is_ok (p_serialize f e it x))) l)%list
+              (pv ++ seqp (fun x => (xprims_serialize f (nb + 1)%N ne e it x, go_on (p_serialize f e it x))) l)%list
           | _ => pv
           end
         else pv
@@ -359,9 +369,9 @@ with xprims_serialize (fuel : nat) (nb : N) (ne : nenv) (e : env) (s : schema) (
           | VMap _ _ kvs =>
               (pv ++ seqp (fun kv =>
                              let pk := xprims_serialize f (nb + 1)%N ne e ks (fst kv) in
-                             if is_ok (p_serialize f e ks (fst kv))
+                             if go_on (p_serialize f e ks (fst kv))
                              then ((pk ++ xprims_serialize f (nb + 1 + ssize ks)%N ne e vs (snd kv))%list,
-                                   is_ok (p_serialize f e vs (snd kv)))
+                                   go_on (p_serialize f e vs (snd kv)))
                              else (pk, false)) kvs)%list
           | _ => pv
           end
@@ -373,8 +383,8 @@ with xprims_serialize (fuel : nat) (nb : N) (ne : nenv) (e : env) (s : schema) (
             if is_ok (check_rules props (fun k => amem k r))
             then seqp (fun kv => match alookup (fst kv) props with
                                  | Some p => (xprims_serialize f (prop_off (nb + 1)%N props (fst kv)) ne e (p_type p) (snd kv),
-                                              is_ok (p_serialize f e (p_type p) (snd kv)))
-                                 | None => ([], false)
+                                              go_on (p_serialize f e (p_type p) (snd kv)))
+                                 | None => ([], cont)
                                  end) r
             else []
         | None => []
@@ -411,11 +421,11 @@ with xprims_compat (fuel : nat) (nb : N) (ne : nenv) (e : env) (s : schema) (v :
     | SAny => []                                  (* no cell below an any schema *)
     | SList it _ _ =>
         match v with
-        | VSlice _ _ l => seqp (fun x => (xprims_compat f (nb + 1)%N ne e it x, is_ok (p_compat f e it x))) l
+        | VSlice _ _ l => seqp (fun x => (xprims_compat f (nb + 1)%N ne e it x, go_on (p_compat f e it x))) l
         | VPtr t (Some (VSlice _ _ l)) =>
             match underlying t with
             | TPtr te => match kind_of_type te with
-                         | KSlice => seqp (fun x => (xprims_compat f (nb + 1)%N ne e it x, is_ok (p_compat f e it x))) l
+                         | KSlice => seqp (fun x => (xprims_compat f (nb + 1)%N ne e it x, go_on (p_compat f e it x))) l
                          | _ => []
                          end
             | _ => []
@@ -428,9 +438,9 @@ with xprims_compat (fuel : nat) (nb : N) (ne : nenv) (e : env) (s : schema) (v :
             if size_ok mn mx (zlen kvs)
             then seqp (fun kv =>
                          let pk := xprims_compat f (nb + 1)%N ne e ks (fst kv) in
-                         if is_ok (p_compat f e ks (fst kv))
+                         if go_on (p_compat f e ks (fst kv))
                          then ((pk ++ xprims_compat f (nb + 1 + ssize ks)%N ne e vs (snd kv))%list,
-                               is_ok (p_compat f e vs (snd kv)))
+                               go_on (p_compat f e vs (snd kv)))
                          else (pk, false)) kvs
             else []
         | _ => []
@@ -440,8 +450,8 @@ with xprims_compat (fuel : nat) (nb : N) (ne : nenv) (e : env) (s : schema) (v :
         | Some kvs =>
             seqp (fun kv => match alookup (fst kv) props with
                             | Some p => (xprims_compat f (prop_off (nb + 1)%N props (fst kv)) ne e (p_type p) (snd kv),
-                                         is_ok (p_compat f e (p_type p) (snd kv)) && negb (p_disabled p))
-                            | None => ([], false)
+                                         cont || (is_ok (p_compat f e (p_type p) (snd kv)) && negb (p_disabled p)))
+                            | None => ([], cont)
                             end) (raw_of_entries kvs)
         | None => xprims_unser f nb ne e s v
         end
@@ -473,17 +483,9 @@ with xprims_compat (fuel : nat) (nb : N) (ne : nenv) (e : env) (s : schema) (v :
     end
   end.
 
-(* the operations on a root schema: node 0, numbering environment nenv0 *)
-Definition prims_unser (fuel : nat) (e : env) (s : schema) (v : gval) : list prim :=
-  map prim_of (xprims_unser fuel 0%N (nenv0 e s) e s v).
-Definition prims_validate (fuel : nat) (e : env) (s : schema) (v : gval) : list prim :=
-  map prim_of (xprims_validate fuel 0%N (nenv0 e s) e s v).
-Definition prims_serialize (fuel : nat) (e : env) (s : schema) (v : gval) : list prim :=
-  map prim_of (xprims_serialize fuel 0%N (nenv0 e s) e s v).
-Definition prims_compat (fuel : nat) (e : env) (s : schema) (v : gval) : list prim :=
-  map prim_of (xprims_compat fuel 0%N (nenv0 e s) e s v).
-
 End WithTables.
+
+
 
 (* the shape of the schema as far as a list of uses looks at it: which definitions declare
    multipliers, which objects decode their defaults lazily (`lazy`: the object came out of the
@@ -496,3 +498,14 @@ Definition shape_of (xs : list xprim) (lazy : bool) : shape :=
                                       | _ => false
                                       end) xs)
           (fun _ => lazy).
+
+(* the operations on a root schema: node 0, numbering environment nenv0 *)
+Definition prims_unser (words : list (string * bool)) (pu : units -> string -> option fl) (fuel : nat) (e : env) (s : schema) (v : gval) : list prim :=
+  map prim_of (xprims_unser words pu false fuel 0%N (nenv0 e s) e s v).
+Definition prims_validate (words : list (string * bool)) (pu : units -> string -> option fl) (fuel : nat) (e : env) (s : schema) (v : gval) : list prim :=
+  map prim_of (xprims_validate words pu false fuel 0%N (nenv0 e s) e s v).
+Definition prims_serialize (words : list (string * bool)) (pu : units -> string -> option fl) (fuel : nat) (e : env) (s : schema) (v : gval) : list prim :=
+  map prim_of (xprims_serialize words pu false fuel 0%N (nenv0 e s) e s v).
+Definition prims_compat (words : list (string * bool)) (pu : units -> string -> option fl) (fuel : nat) (e : env) (s : schema) (v : gval) : list prim :=
+  map prim_of (xprims_compat words pu false fuel 0%N (nenv0 e s) e s v).
+
